@@ -67,9 +67,15 @@ class C09Antenna(Machine):
                 # a delay line defined in *time* (not in samples): windows of this system may
                 # use two different sample steps
                 cfg["taps"] = [1.0]
-                cfg["delay_steps"] = rng.pick([2, 4, 6])
+                cfg["delay_steps"] = rng.pick([2, 4, 6, 2.4, 3.3, 5.25])
                 # sometimes a lead-in that is only just long enough for the delay line
                 cfg["lead_in"] = rng.pick([cfg["delay_steps"] + 1, 25])
+                if cfg["delay_steps"] != int(cfg["delay_steps"]):
+                    # a delay that is not a whole number of samples (the front end interpolates):
+                    # exact as long as every signal and window of the run shares one sample grid;
+                    # the lead-in may be exactly as long as the delay
+                    cfg["frac_delay"] = True
+                    cfg["lead_in"] = rng.pick([cfg["delay_steps"], cfg["delay_steps"], cfg["delay_steps"] + 1, 25])
             else:
                 cfg["taps"] = rng.pick([[1.0], [0.5], [0.0, 1.0], [0.25, 0.5, 0.25], [1.0, -1.0]])
         if kind == "dipole":
@@ -120,6 +126,10 @@ class C09Antenna(Machine):
                     def front_end(self, signal):
                         x = np.asarray(signal.values, dtype=float)
                         y = np.zeros(len(x))
+                        if delay_s and cfg.get("frac_delay"):
+                            y = np.interp(np.asarray(signal.times, dtype=float) - delay_s,
+                                          np.asarray(signal.times, dtype=float), x, left=0.0, right=0.0)
+                            return P.Signal(signal.times, y, value_type=signal.value_type)
                         if delay_s:
                             n = int(round(delay_s / (signal.times[1] - signal.times[0])))
                             if n < len(x):
@@ -169,6 +179,9 @@ class C09Antenna(Machine):
 
     def _times(self, w):
         dt = self.cfg["dt"]
+        if self.cfg.get("frac_delay"):
+            # one sample grid for the whole run
+            return self.t_ref + dt * (w["k0"] + np.arange(w["m"]))
         step = 0.5 if w.get("fine") else 1.0
         return self.t_ref + dt * (w["k0"] + w["frac"] / QUARTER + step * np.arange(w["m"]))
 
@@ -205,7 +218,8 @@ class C09Antenna(Machine):
                     w["frac"] = 0
             return {"op": k, "w": w}
         if k == "clear":
-            return {"op": "clear", "reset_noise": rng.chance(0.4)}
+            return {"op": "clear", "reset_noise": rng.chance(0.4),
+                    "spelling": rng.pick(["bool", "bool", "numpy", "int"]), "positional": rng.chance(0.3)}
         if k == "bad_receive":
             return {"op": "bad_receive", "how": rng.pick(["count", "count2", "type", "type_second", "grid_second"]),
                     "w": self._window_spec(rng, "base")}
@@ -261,6 +275,18 @@ class C09Antenna(Machine):
         """Record noise values at absolute times; re-observations must agree."""
         rms = max(self.noise_rms_seen, float(np.sqrt(np.mean(vals ** 2))) if len(vals) else 0.0)
         self.noise_rms_seen = rms
+        prev = getattr(self, "prev_noise_map", None)
+        if prev:
+            same = [abs(prev[self._key(t)] - v) <= 1e-12 * max(rms, 1e-30)
+                    for t, v in zip(T, vals) if self._key(t) in prev]
+            if len(same) >= 8:
+                self.prev_noise_map = None
+                self.count("probe.noise_compared_across_reset")
+                if all(same):
+                    raise Violation("C09:noise-not-reset",
+                                    "after clear(reset_noise=<true>) the noise at %d absolute times seen before "
+                                    "the reset is exactly the realisation of before the reset (%s)"
+                                    % (len(same), what))
         for t, v in zip(T, vals):
             k = self._key(t)
             if k in self.noise_map:
@@ -501,10 +527,21 @@ class C09Antenna(Machine):
         return ["q_signals", len(ss)]
 
     def _op_clear(self, op):
-        st, _ = self.sut(lambda: self.obj.clear(reset_noise=op["reset_noise"]), where="clear")
+        flag = op["reset_noise"]
+        if flag and op.get("spelling") == "numpy":
+            flag = np.bool_(True)       # e.g. the result of np.any(...)
+        elif flag and op.get("spelling") == "int":
+            flag = 1
+        if op.get("positional"):
+            st, _ = self.sut(lambda: self.obj.clear(flag), where="clear")
+        else:
+            st, _ = self.sut(lambda: self.obj.clear(reset_noise=flag), where="clear")
         had = len(self.sigs)
         self.sigs = []
         if op["reset_noise"]:
+            # the realisation of the previous epoch: the one seen after an explicit reset is a new one
+            if len(self.noise_map) >= 8:
+                self.prev_noise_map = self.noise_map
             self.noise_map = {}
             self.noise_rms_seen = 0.0
             self.epoch += 1
